@@ -527,6 +527,50 @@ func main() {
 			out.put(fmt.Sprintf("reload %d %d %s", h, f, ops), line, verdict("C18", c18), verdict("C08", panicOnly(line)))
 		}
 		out.close()
+	case "reloadconc": // <seed> <n> <outdir>
+		seed, _ := strconv.ParseUint(os.Args[2], 10, 64)
+		n, _ := strconv.Atoi(os.Args[3])
+		out := openOut(os.Args[4])
+		for i := 0; i < n; i++ {
+			r := NewRng(seed, uint64(i))
+			first, threads, sched := genReloadConc(r)
+			sb := []byte{}
+			for _, x := range sched {
+				sb = append(sb, "0123456789abcdefghijklmnopqrstuvwxyz"[x])
+			}
+			ss := string(sb)
+			if ss == "" {
+				ss = "."
+			}
+			noteInput(fmt.Sprintf("reloadconc first-build-ok=%v threads=%s schedule=%s", first, threads, ss))
+			line, c18 := runReloadConc(first, threads, sched)
+			out.count(fmt.Sprintf("threads%d", len(threads)))
+			overlap := false // a request or a store falls inside another Reload's build
+			open_ := map[int]bool{}
+			for _, x := range sched {
+				if threads[x] == '+' || threads[x] == '-' {
+					if open_[x] {
+						delete(open_, x)
+					} else {
+						open_[x] = true
+					}
+					if len(open_) > 1 || (len(open_) == 1 && !open_[x]) {
+						overlap = true
+					}
+				} else if len(open_) > 0 {
+					overlap = true
+				}
+			}
+			if overlap {
+				out.count("overlapping")
+			}
+			f := 0
+			if first {
+				f = 1
+			}
+			out.put(fmt.Sprintf("reloadconc %d %s %s", f, threads, ss), line, verdict("C18", c18), verdict("C08", panicOnly(line)))
+		}
+		out.close()
 	case "race": // <C15|C18> <seed> <rounds>  (binary built with -race)
 		seed, _ := strconv.ParseUint(os.Args[3], 10, 64)
 		rounds, _ := strconv.Atoi(os.Args[4])
